@@ -375,3 +375,54 @@ Proof.
   repeat split; vm_compute; reflexivity.
 Qed.
 (* ---- end C16b ---- *)
+
+(* ---- visit links ---- *)
+(** LINK C16 o C13: the model above reads breadth-first distances from [dist_matrix]; the
+    Rust code reads them from the [Visit] events of [ParFairNoPred] visits.  The theorems
+    below identify the two, through the C13 model of the visits (sequential, and parallel
+    under EVERY schedule; unfiltered as in [step]/[sum_sweep], and filtered to the pivot's
+    component as in [compute_dist_pivot_from_graph], whose distances [Algo/EssScc.v] reads
+    from the matrix of the induced subgraph). *)
+From WG Require Import Base.Prelude Visits.Bfs Visits.BfsStatements Algo.EssScc
+  Links.VisitLinkStatements Links.VisitLinkBfsFacts.
+
+Theorem C16_link_bfs_dist_seq : S_link_bfs_dist_seq.
+Proof. exact link_bfs_dist_seq. Qed.
+Print Assumptions C16_link_bfs_dist_seq.
+
+Theorem C16_link_bfs_dist_par : S_link_bfs_dist_par.
+Proof. exact link_bfs_dist_par. Qed.
+Print Assumptions C16_link_bfs_dist_par.
+
+Theorem C16_link_bfs_dist_filtered_seq : S_link_bfs_dist_filtered_seq.
+Proof. exact link_bfs_dist_filtered_seq. Qed.
+Print Assumptions C16_link_bfs_dist_filtered_seq.
+
+Theorem C16_link_bfs_dist_filtered_par : S_link_bfs_dist_filtered_par.
+Proof. exact link_bfs_dist_filtered_par. Qed.
+Print Assumptions C16_link_bfs_dist_filtered_par.
+
+(** non-vacuity: a graph with a cycle, a node at distance 3 and an unreachable node; the
+    events of the sequential visit, the levels of a parallel visit under a reversing
+    schedule, the row of the matrix; the same for the visit filtered to the component
+    {0,1,2} and the matrix of the induced subgraph *)
+Example C16_link_bfs_nonvacuous :
+  let g := [[1;2];[2;3];[0];[3;4];[];[0]]%nat in
+  let cp := [0;0;0;1;1;2]%nat in
+  EssSpecM.wf_graph g = true
+  /\ seq_visit_dists (gN g) BfsM.no_filter 0%N = [(0,0);(1,1);(2,1);(3,2);(4,3)]%N
+  /\ map (map fst) (par_levels (gN g) BfsM.no_filter (fun _ l => rev l) [0%N] [])
+     = [[0];[1;2];[3];[4]]%N
+  /\ nth 0 (dist_matrix g) [] = [Some 0; Some 1; Some 1; Some 2; Some 3; None]%nat
+  /\ seq_visit_dists (gN g) (comp_filter cp 0) 0%N = [(0,0);(1,1);(2,1)]%N
+  /\ map (map fst) (par_levels (gN g) (comp_filter cp 0) (fun _ l => rev l) [0%N] [])
+     = [[0];[1;2]]%N
+  /\ nth 0 (dist_matrix (induced g cp)) [] = [Some 0; Some 1; Some 1; None; None; None]%nat
+  /\ (forall v d : N, In (v, d) (seq_visit_dists (gN g) BfsM.no_filter 0%N) <->
+        dget (dist_matrix g) 0 (N.to_nat v) = Some (N.to_nat d)).
+Proof.
+  cbv zeta. repeat (split; [vm_compute; reflexivity|]).
+  apply (C16_link_bfs_dist_seq [[1;2];[2;3];[0];[3;4];[];[0]]%nat 0%nat); [reflexivity|].
+  cbn [length]. lia.
+Qed.
+(* ---- visit links ---- *)
